@@ -155,7 +155,7 @@ def ulps(a_bits, b_bits):
     return abs(key(a_bits) - key(b_bits))
 
 
-F8_ULPS = 4096      # iwstrtod results this close to the nearest double are classified as finding F8, farther ones are plain wrong
+F8_ULPS = 64      # iwstrtod results this close to the nearest double are classified as finding F8, farther ones are plain wrong
 
 
 def cmp_value(ref, got, path="$"):
